@@ -170,9 +170,10 @@ theorem sqlText_close_eq : Gen.OutputStreams.sqlText_close =
 theorem sqlText_init_db_eq : Gen.OutputStreams.sqlText_init_db =
     ["db_url = f'sqlite:///{self.tempdir.name}/tempdb.db'", "engine = create_engine(db_url)", "return SqlDbOutputStream(engine)"] := rfl
 
-/-- CSV header = `fields + ["id"]` (`csvHeader`; no `_sf_update_key`: D16) -/
+/-- CSV header = `fields + ["id"]`, plus `_sf_update_key` iff the table has update keys
+    (`csvHeader`; repaired by bc0f717 — D16) -/
 theorem csv_open_writer_eq : Gen.OutputStreams.csv_open_writer =
-    ["file = open(self.target_path / f'{table_name}.csv', 'w', newline='')", "writer = csv.DictWriter(file, list(table.fields.keys()) + ['id'])", "writer.writeheader()", "return CSVContext(dictwriter=writer, file=file)"] := rfl
+    ["file = open(self.target_path / f'{table_name}.csv', 'w', newline='')", "fieldnames = list(table.fields.keys()) + ['id']", "if getattr(table, 'has_update_keys', False):\n    fieldnames.append('_sf_update_key')", "writer = csv.DictWriter(file, fieldnames)", "writer.writeheader()", "return CSVContext(dictwriter=writer, file=file)"] := rfl
 
 /-- CSV close: files, then `csvw_metadata.json` -/
 theorem csv_close_eq : Gen.OutputStreams.csv_close =
